@@ -119,15 +119,7 @@ func (s *tunnelServer) serve(tunnelMetadata metadata.MD) error {
 // itself is still valid for subsequent RPCs. This will be the case, for example, if the requested
 // method name is not implemented by the server.
 func (s *tunnelServer) createStream(ctx context.Context, streamID int64, frame *tunnelpb.NewStream) (bool, error) {
-	if s.isClosing() {
-		return true, status.Errorf(codes.Unavailable, "server is shutting down")
-	}
-
-	if frame.ProtocolRevision != tunnelpb.ProtocolRevision_REVISION_ZERO &&
-		frame.ProtocolRevision != tunnelpb.ProtocolRevision_REVISION_ONE {
-		return true, status.Errorf(codes.Unavailable, "server does not support protocol revision %d", frame.ProtocolRevision)
-	}
-	noFlowControl := frame.ProtocolRevision == tunnelpb.ProtocolRevision_REVISION_ZERO
+	closing := s.isClosing()
 
 	s.mu.Lock()
 	defer s.mu.Unlock()
@@ -140,7 +132,20 @@ func (s *tunnelServer) createStream(ctx context.Context, streamID int64, frame *
 	if streamID <= s.lastSeen {
 		return false, fmt.Errorf("cannot create stream ID %d: that ID has already been used", streamID)
 	}
+	// Record the ID before rejecting the stream for any other reason, so that
+	// subsequent frames for a rejected stream are ignored (like those of any
+	// other finished stream) instead of being treated as a protocol error.
 	s.lastSeen = streamID
+
+	if closing {
+		return true, status.Errorf(codes.Unavailable, "server is shutting down")
+	}
+
+	if frame.ProtocolRevision != tunnelpb.ProtocolRevision_REVISION_ZERO &&
+		frame.ProtocolRevision != tunnelpb.ProtocolRevision_REVISION_ONE {
+		return true, status.Errorf(codes.Unavailable, "server does not support protocol revision %d", frame.ProtocolRevision)
+	}
+	noFlowControl := frame.ProtocolRevision == tunnelpb.ProtocolRevision_REVISION_ZERO
 
 	if len(frame.MethodName) > 0 && frame.MethodName[0] == '/' {
 		frame.MethodName = frame.MethodName[1:]
